@@ -1,3 +1,5 @@
+import Gengo.Model.Tags
+import Gengo.Gen.Consts
 /-!
 Model of the comment index of pkg/types/package.go (`collectCommentGroup`, the `ast.Inspect`
 walk, `Doc`, `Comment`, `priorCommentLines`) over an abstract source layout.
@@ -72,5 +74,16 @@ def WFRow : Row → Prop
   | .blank => True
   | .comment ls => ls ≠ []
   | .decl h _ => 1 ≤ h
+
+/-- `commentLinesFrom`: the lines of the group's text, prose lines starting `go:` dropped (O11) -/
+def commentLines (ls : List Str) : List Str := ls.filter fun l => !("go:".toList.isPrefixOf l)
+
+/-- `Package.Doc(pos)`: tags and remaining lines of the group indexed for the line above;
+    markers regenerated from the source -/
+def docOf (idx : Idx) (ln : Nat) : List (Str × List Str) × List Str :=
+  Tags.extract Gengo.Gen.defaultMarkers (commentLines (docAt idx ln))
+
+/-- `Package.Comment(pos)` -/
+def commentOf (idx : Idx) (ln : Nat) : List Str := commentLines (commentAt idx ln)
 
 end Gengo.Layout
